@@ -140,6 +140,7 @@ pub fn run_check(id: &str, tier: &str) -> i32 {
         "C13" => c13(tier, thorough),
         "C18" => c18(tier, thorough),
         "C14" => c14(tier, thorough),
+        "C07" => c07(tier, thorough),
         _ => {
             eprintln!("unknown check {}", id);
             2
@@ -576,6 +577,26 @@ fn c14(tier: &str, thorough: bool) -> i32 {
     ctx.finish(schedules, steps)
 }
 
+fn c07(tier: &str, thorough: bool) -> i32 {
+    let ctx = leak(Ctx::new("C07", tier, level_mc(), "e1h", &["handle"]));
+    common_assumptions(ctx);
+    ctx.assume("a handle's own stream is never removed or overwritten through another path while the handle is held (the property speaks of handles whose stream exists)");
+    ctx.set_rule("start states = every distinct image reachable by create_stream/remove_stream over the sibling names (all sibling-tree shapes x directory slot assignments the library produces); handles on every ordered choice of <= 2 streams; every action sequence up to the depth over handle ops (write, append, flush, set_len, read-all) and structural mutations of other entries (remove, overwrite, create stream/storage); handle results checked at every call; at the forced quiescent end: full dump vs model, independent checker and parse, strict reopen");
+    let mut seqs = 0u64;
+    let mut acts = 0u64;
+    for v in [3u16, 4] {
+        let runs: Vec<(&[&str], usize, bool)> = if thorough { vec![(&["a", "b", "c", "d"], 3, true), (&["a", "b", "c"], 4, false)] } else { vec![(&["a", "b", "c"], 3, false)] };
+        for (names, depth, rich) in runs {
+            let st = crate::e1h::explore(ctx, v, names, depth, rich, 2);
+            ctx.note(format!("v{} names={:?} depth={} rich={}: start_states={} (state,handles) choices={} sequences={} actions={}", v, names, depth, rich, st.start_states, st.handle_choices, st.sequences, st.actions));
+            seqs += st.sequences;
+            acts += st.actions;
+            ctx.add("start_states", st.start_states);
+        }
+    }
+    ctx.finish(seqs, acts)
+}
+
 fn c18_histories(v: u16, depth: usize, sizes: &[usize]) -> Vec<History> {
     let a = DataAlpha { paths: vec!["/s", "/d/t"], rewrite: sizes.to_vec(), setlen: vec![0, 70, 4096], append: vec![100], patch: vec![(1, 3)], remove: true };
     let mut ops = data_ops(&a);
@@ -673,6 +694,26 @@ pub fn replay(path: &str) -> i32 {
                     println!("VIOLATION-REPLAYED class={} {}", v.class, v.msg);
                 }
                 1
+            }
+        }
+        "handles" => {
+            let c: crate::e1h::HandleHist = match serde_json::from_value(case["handles"].clone()) {
+                Ok(c) => c,
+                Err(e) => {
+                    eprintln!("bad handle history: {}", e);
+                    return 2;
+                }
+            };
+            println!("replaying {:?}", c);
+            match crate::e1h::run_case(&c) {
+                None => {
+                    println!("no violation on replay");
+                    0
+                }
+                Some((class, msg)) => {
+                    println!("VIOLATION-REPLAYED class={} {}", class, msg);
+                    1
+                }
             }
         }
         "sched" => {
